@@ -63,19 +63,19 @@ Definition site_8 : site :=
     [ISubRsp 128; IPush RBP; IPush RBX; IPush R12; IPush R13; IPush R14; IPush R15; ISubRsp 8; ILea 1 RBP; IPush RBP; IStoreRsp RAX; ILoadRsp RCX; ICall 7; IPop RAX; IJmp RAX; ILabel 1; IAddRsp 8; IPop R15; IPop R14; IPop R13; IPop R12; IPop RBX; IPop RBP; IAddRsp 128]
     [RAX; RCX; RDX; RSI; RDI] [RAX; RCX; RDI; RSI; RDX] [R8; R9; R10; R11] true true.
 
-(* myth_if_native.c -O0  src/myth_sync_func.h:106 *)
+(* myth_if_native.c -O0  src/myth_sync_func.h:108 *)
 Definition site_9 : site :=
   mkSite 9
     [ISubRsp 128; IPush RBP; IPush RBX; IPush R12; IPush R13; IPush R14; IPush R15; ISubRsp 8; ILea 1 RBP; IPush RBP; IStoreRsp RAX; ILoadRsp RCX; ICall 8; IPop RAX; IJmp RAX; ILabel 1; IAddRsp 8; IPop R15; IPop R14; IPop R13; IPop R12; IPop RBX; IPop RBP; IAddRsp 128]
     [RAX; RCX; RDX; RSI; RDI] [RAX; RCX; RDI; RSI; RDX] [R8; R9; R10; R11] true true.
 
-(* myth_if_native.c -O0  src/myth_sync_func.h:156 *)
+(* myth_if_native.c -O0  src/myth_sync_func.h:160 *)
 Definition site_10 : site :=
   mkSite 10
     [ISubRsp 128; IPush RBP; IPush RBX; IPush R12; IPush R13; IPush R14; IPush R15; ISubRsp 8; ILea 1 RBP; IPush RBP; IStoreRsp RAX; ILoadRsp RCX; ICall 9; IPop RAX; IJmp RAX; ILabel 1; IAddRsp 8; IPop R15; IPop R14; IPop R13; IPop R12; IPop RBX; IPop RBP; IAddRsp 128]
     [RAX; RCX; RDX; RSI; RDI] [RAX; RCX; RDI; RSI; RDX] [R8; R9; R10; R11] true true.
 
-(* myth_if_native.c -O0  src/myth_sync_func.h:1129 *)
+(* myth_if_native.c -O0  src/myth_sync_func.h:1143 *)
 Definition site_11 : site :=
   mkSite 11
     [ISubRsp 128; IPush RBP; IPush RBX; IPush R12; IPush R13; IPush R14; IPush R15; ISubRsp 8; ILea 1 RBP; IPush RBP; IStoreRsp RAX; ILoadRsp RCX; ICall 10; IPop RAX; IJmp RAX; ILabel 1; IAddRsp 8; IPop R15; IPop R14; IPop R13; IPop R12; IPop RBX; IPop RBP; IAddRsp 128]
@@ -86,4 +86,16 @@ Definition sites : list site :=
 
 Definition mk_empty_ops : list mkop := [MkAnd 18446744073709551600; MkSetRsp 0].
 Definition mk_voidcall_ops : list mkop := [MkSub 8; MkAnd 18446744073709551600; MkSetRsp 0; MkStoreFunc 0].
+
+(* custom-data carve-out of myth_create_ex_body, case custom_data_size > 0:
+     stk := stack top from the allocator
+     i_stk = (intptr_t)stk   => i_stk = 1*stk+0+0*round16(size)+0*size
+     i_stk -= 16 + (((custom_data_size + 15) >> 4) << 4)   => i_stk = 1*stk-16-1*round16(size)+0*size
+     ->custom_data_ptr = (void* )(i_stk + 16)   => 1*stk+0-1*round16(size)+0*size
+     memcpy((void* )(i_stk + 16), .., custom_data_size)
+     stk = (void* )i_stk   => stk = 1*stk-16-1*round16(size)+0*size
+     myth_make_context_empty(.., stk, ..)   => stack top 1*stk-16-1*round16(size)+0*size
+     myth_make_context_voidcall(.., stk, ..)   => stack top 1*stk-16-1*round16(size)+0*size *)
+Definition cd_layout : carve :=
+  mkCarve (Some (mkLin 1 (-16) (-1) 0)) (Some (mkLin 1 (-16) (-1) 0)) (Some (mkLin 1 0 (-1) 0)) (Some (mkLin 1 0 (-1) 0)) (Some (mkLin 0 0 0 1)) true.
 
